@@ -32,6 +32,9 @@ def Pres : Schema → Val → DVal → DVal → Prop
         fs0.map Prod.fst = fsd.map Prod.fst ∧ (fsd.map Prod.fst).Nodup ∧ (∀ n ∈ fsd.map Prod.fst, n ∈ fs.goNames) ∧
         PresFields fs kvs d d0
   | .custom c, v, d, _ => c.accept v = some d
+  /- a Preprocess function is written for ONE mode (Parse: `F` is the input's type; Validate: `F` is a
+     pointer to the destination), so a Preprocess node is outside "the same schema in both modes" -/
+  | .pre _ _, _, _, _ => False
 def PresFields : Fields → List (String × Val) → DVal → DVal → Prop
   | .nil, _, _, _ => True
   | .cons k fm s rest, kvs, d, d0 =>
@@ -291,6 +294,8 @@ theorem agree (env : Env) : ∀ (s : Schema), s.WF → ∀ (v v' : Val) (d d0 : 
     simp only [Pres] at h
     unfold proc
     simp only [h]
+  | .pre ps inner, _, v, v', d, d0, path, st, h => by
+    simp only [Pres] at h
   | .ptr elem zp nn, hw, v, v', d, d0, path, st, h => by
     simp only [Pres] at h
     simp only [Schema.WF] at hw
